@@ -19,5 +19,5 @@ def main(argv):
     c = vcheck.Check("C04", argv)
     # with stops after the k-th store write and restarts in between: the chain read back from the stores after a restart
     # is judged like any other observation (immutability and contiguity hold across restarts, not only within one run)
-    mirrorlib.mirror_check(c, "C04", ["c04"], "C04 committed chain", extra=["-crashes"])
+    mirrorlib.mirror_check(c, "C04", ["c04"], "C04 committed chain", extra=["-crashes"], templates=[9])
     c.finish()
